@@ -49,6 +49,11 @@ type Case struct {
 	Tags     []Tag  `json:"tags"`      // Sig 'desc' marks the description tag
 	DescKind string `json:"desc_kind"` // "v2", "v4", "" (absent)
 	ASCII    string `json:"ascii,omitempty"`
+	// v2 only: the tag's Unicode and ScriptCode parts carry these (different) texts; the description is the ASCII
+	// part whatever they hold.  ASCIICount0 writes an empty ASCII part with count 0 instead of a lone NUL.
+	Unicode     string `json:"unicode,omitempty"`
+	Script      string `json:"script,omitempty"`
+	ASCIICount0 bool   `json:"ascii_count0,omitempty"`
 	Recs     []Rec  `json:"recs,omitempty"`
 	StrOrder []int  `json:"str_order,omitempty"`
 	Gap      int    `json:"gap"`
@@ -77,6 +82,27 @@ func (c Case) build() (profile []byte, descData []byte) {
 			switch c.DescKind {
 			case "v2":
 				d = build.TextDesc(c.ASCII)
+				if c.Unicode != "" || c.Script != "" || c.ASCIICount0 {
+					ab := append([]byte(c.ASCII), 0)
+					if c.ASCIICount0 && c.ASCII == "" {
+						ab = nil
+					}
+					var uc []byte
+					var ucCount uint32
+					if c.Unicode != "" {
+						for _, u := range append(units(c.Unicode), 0) {
+							uc = append(uc, byte(u>>8), byte(u))
+						}
+						ucCount = uint32(len(uc) / 2)
+					}
+					sc := make([]byte, 67)
+					n := copy(sc, c.Script)
+					scCount := uint8(0)
+					if n > 0 {
+						scCount = uint8(n + 1)
+					}
+					d = build.TextDescFull(uint32(len(ab)), ab, 0x656E5553, ucCount, uc, 0, scCount, sc)
+				}
 			case "v4":
 				recs := make([]build.MlucRec, len(c.Recs))
 				share := make([]int, len(c.Recs))
@@ -445,6 +471,16 @@ func gen(rt *rapid.T) Case {
 			}
 		}
 		c.ASCII = string(b)
+		if rapid.Bool().Draw(rt, "v2unicode") {
+			c.Unicode = "Unicode part: " + genText(rt, "unicode")
+			if rapid.Bool().Draw(rt, "v2script") {
+				c.Script = "ScriptCode part"
+			}
+			if rapid.IntRange(0, 2).Draw(rt, "v2blankascii") == 0 {
+				c.ASCII = ""
+				c.ASCIICount0 = rapid.Bool().Draw(rt, "v2count0")
+			}
+		}
 	case "v4":
 		nr := rapid.SampledFrom([]int{1, 1, 2, 2, 3, 5, 40}).Draw(rt, "nrecsmax")
 		nr = rapid.IntRange(1, nr).Draw(rt, "nrecs")
@@ -502,12 +538,15 @@ func TestC17(t *testing.T) {
 		fmt.Println("REPLAY case passed")
 		return
 	}
-	ev.Rule("rapid grammar-built ICC profiles: 0-64 tags with distinct signatures, 'desc' at a random table position or absent, data blocks laid out in table/reverse/random order, blocks shared between tags, 0-3 padding bytes between blocks and after the table, trailer bytes; v2 textDescription (0-2000 printable ASCII) or v4 mluc with 1-40 records (languages incl. 0/1/several 'en'), strings in table/reverse/random order, shared, overlapping (suffix), with gaps; text from ASCII, BMP and surrogate-pair ranges; read through icc.NewProfileReader, or embedded in a PNG (iCCP) / JPEG (2 APP2 chunks) through meta.Data.ICCProfile. non-trivial = distinct case with >= 2 mluc records, a string not immediately after its record, data order != table order, shared or padded blocks, or zero tags")
+	ev.Rule("rapid grammar-built ICC profiles: 0-64 tags with distinct signatures, 'desc' at a random table position or absent, data blocks laid out in table/reverse/random order, blocks shared between tags, 0-3 padding bytes between blocks and after the table, trailer bytes; v2 textDescription (0-2000 printable ASCII; half with different text in the Unicode and ScriptCode parts, the ASCII part sometimes empty) or v4 mluc with 1-40 records (languages incl. 0/1/several 'en'), strings in table/reverse/random order, shared, overlapping (suffix), with gaps; text from ASCII, BMP and surrogate-pair ranges; read through icc.NewProfileReader, or embedded in a PNG (iCCP) / JPEG (2 APP2 chunks) through meta.Data.ICCProfile. non-trivial = distinct case with >= 2 mluc records, a string not immediately after its record, data order != table order, shared or padded blocks, or zero tags")
 	ev.Assume("harness ICC/mluc builder; Description must be a member of the allowed set (any 'en' record, else any record)")
 	// deterministic corner cases first
 	fixed := []Case{
 		{Via: "reader"}, // zero tags
 		{Tags: []Tag{{Sig: descSig, Share: -1}}, DescKind: "v2", ASCII: "", Order: []int{0}, Pad: []int{0}, Via: "reader"},
+		{Tags: []Tag{{Sig: descSig, Share: -1}}, DescKind: "v2", ASCII: "", Unicode: "Unicode part", Script: "ScriptCode part", Order: []int{0}, Pad: []int{0}, Via: "reader"},
+		{Tags: []Tag{{Sig: descSig, Share: -1}}, DescKind: "v2", ASCII: "", ASCIICount0: true, Unicode: "Unicode part", Order: []int{0}, Pad: []int{0}, Via: "reader"},
+		{Tags: []Tag{{Sig: descSig, Share: -1}}, DescKind: "v2", ASCII: "ASCII part", Unicode: "Unicode part", Script: "ScriptCode part", Order: []int{0}, Pad: []int{0}, Via: "reader"},
 		{Tags: []Tag{{Sig: descSig, Share: -1}}, DescKind: "v4", Recs: []Rec{{Lang: "de", Country: "DE", Text: "Anzeige", Share: -1}, {Lang: "en", Country: "US", Text: "Display", Share: -1}}, Order: []int{0}, Pad: []int{0}, Via: "reader"},
 		{Tags: []Tag{{Sig: descSig, Share: -1}}, DescKind: "v4", Recs: []Rec{{Lang: "en", Country: "US", Text: "", Share: -1}, {Lang: "fr", Country: "FR", Text: "Écran", Share: -1}}, Order: []int{0}, Pad: []int{0}, Via: "reader"},
 		{Tags: []Tag{{Sig: descSig, Share: -1}}, DescKind: "v4", Recs: []Rec{{Lang: "ja", Country: "JP", Text: "ディスプレイ 𝒫3", Share: -1}}, Gap: 4, Order: []int{0}, Pad: []int{0}, Via: "reader"},
